@@ -216,6 +216,29 @@ def action_property(m, rng, seed=None):
         if nz != [p]:
             return 'a source on %s excites pulses %r, the geometry table names pulse %d' % (
                 'absolute pulse %d' % (a + 1) if kind == 'abs' else 'pulse %d of object %d' % (a + 1, b), [i + 1 for i in nz], p + 1)
+    # several sources with different voltages, named in an arbitrary (mostly not ascending) order of pulse numbers:
+    # every voltage acts on the pulse it was given for
+    if N >= 3:
+        ps = rng.sample(range(N), min(N, rng.choice([2, 3])))
+        if ps == sorted(ps):
+            ps.reverse()
+        vs = [complex(1.0 + k, 0.5 - 2 * k) for k in range(len(ps))]
+        ss = []
+        for p, v in zip(ps, vs):
+            s_ = Excitation(v); m.register_source(s_, p); ss.append(s_)
+        try:
+            m.compute_rhs()
+            rhs = m.rhs.copy()
+        finally:
+            for s_ in ss:
+                m.sources.remove(s_)
+            m.rhs = None
+        for p, v in zip(ps, vs):
+            g = 2.0 if (m.media and m.pulses[p].ground.any()) else 1.0
+            acting = rhs[p] / (-1j * g / m.m)
+            if abs(acting - v) > 1e-9 * abs(v):
+                return ('sources named for pulses %r with voltages %r: the voltage acting on pulse %d is %r'
+                        % ([q + 1 for q in ps], vs, p + 1, complex(np.round(acting, 9))))
     return None
 
 
